@@ -175,6 +175,14 @@ func VF_C14_Constructors(n, form int) {
 		gm[nk] = 1
 		delete(gm, nk)
 		checkMap("from-map-after-arg-mutation", kit, mp, m)
+		// a nil Go map is an empty map like any other: the result is a usable, empty Map
+		if n == 0 {
+			var none map[int]int
+			em := cls.MakeFromMap(none)
+			checkMap("from-nil-map", kit, em, &omodel[int]{})
+			em.SetValue(nk, 5)
+			checkMap("from-nil-map-then-set", kit, em, &omodel[int]{[]int{nk}, []int{5}})
+		}
 	case 3:
 		checkMap("make-empty", kit, cls.Make(), &omodel[int]{})
 		// a sequence of associations from another map
